@@ -154,7 +154,7 @@ impl Property for C03 {
         for _ in 0..40 {
             // PDR without generalisation blocks states one at a time: its run length grows with
             // 2^(state bits), so PDR workloads keep the same size bound in both tiers
-            let (sb, ib) = if use_pdr { (msb.min(7), mib.min(3)) } else { (msb, mib) };
+            let (sb, ib) = if use_pdr { (msb.min(6), mib.min(3)) } else { (msb, mib) };
             let sys = gen_system(&mut rng, sb, ib, use_pdr, |c| {
                 if use_pdr {
                     c.arrays = false;
